@@ -21,10 +21,12 @@
   are the coarse ones.  `ALV.Lemmas.C17Fine` proves that, when no iterable raises, every fine step
   is a coarse step or a stutter step (`pull`), i.e. the fine system refines the coarse one.
 
-  An iterable that raises kills the player thread (`FCfg.dieFixed = false`: the code as it is —
-  no epilogue: the device stream stays open and the thread stays in `_threads`), or, with
-  proposed_fixes/D21-player-dies-close-spins.diff (`dieFixed = true`: `try … finally` around the
-  loop), sends it to its epilogue.
+  An iterable that raises (`Cfg.fails`, copied into `Player.fail` / `Asm.fail`) kills the player
+  thread (`FCfg.dieFixed = false`: the code as it was — no epilogue: the device stream stays open
+  and the thread stays in `_threads`), or, with proposed_fixes/D21-player-dies-close-spins.diff
+  (`dieFixed = true`: `try … finally` around the loop, in /repo since dd9cc91), sends it to its
+  epilogue — then this step IS the coarse system's exception step and the refinement holds for
+  raising iterables too (`ALV.Lemmas.C17Fine.sim_reach` under `Sound`).
 
   Mathlib-free; executable.
 -/
